@@ -686,7 +686,8 @@ def c16(tier):
             T("utils", "VerifC16_TypeLine", {"N": 2, "D": 2, "NS": 2, "NI": 2, "CRSEG": 1}), T("utils", "VerifC16_RelationLine", {"N": 2, "D": 2, "NS": 2, "NI": 2, "CRSEG": 1}),
             T("utils", "VerifC16_Column", {"N": 3, "CRSEG": 1}),
             T("utils", "VerifC08_OddLines", {"T": W(tier, 1, 2), "NS": 3, "NI": 3}), T("utils", "VerifC08_FreeLine", {"L": W(tier, 6, 8)}),
-            T("transformer", "VerifC03_PrePass", {"N": W(tier, 6, 8)}),
+            T("transformer", "VerifC03_PrePass", {"N": W(tier, 5, 7), "ASCII": 1}), T("transformer", "VerifC03_PrePass", {"N": W(tier, 3, 4)}),
+            T("transformer", "VerifC16_PrePassRunes"),
             T("transformer", "VerifC07_Merge", {"SCEN": 1, "N": 2, "NR": 1, "SEPS": 1, "CRLF": 1}),
             T("transformer", "VerifC07_Merge", {"SCEN": 5, "N": 1, "NR": 1}),
             T("transformer", "VerifC07_Merge", {"SCEN": 0, "F": 2, "DECLS": 3, "RELS": 1, "CONDS": 1, "FAULTS": 0, "N": 2, "NR": 1}),
@@ -1055,7 +1056,8 @@ def c01(tier):
 
 
 def c03(tier):
-    jobs = [T("transformer", "VerifC03_PrePass", {"N": W(tier, 7, 9)}), LJ("VerifListener_Doc", tier, MODULES=1, NODES=W(tier, 3, 4), DEPTH=W(tier, 1, 2), SIBLINGS=0, CONDS=0),
+    jobs = [T("transformer", "VerifC03_PrePass", {"N": W(tier, 6, 8), "ASCII": 1}), T("transformer", "VerifC03_PrePass", {"N": W(tier, 4, 5)}),
+            T("transformer", "VerifC16_PrePassRunes"), LJ("VerifListener_Doc", tier, MODULES=1, NODES=W(tier, 3, 4), DEPTH=W(tier, 1, 2), SIBLINGS=0, CONDS=0),
             LJ("VerifListener_Doc", tier, MODULES=1, NODES=1, DEPTH=0, EXPRS=1), LJ("VerifListener_Doc", tier, CHAIN=W(tier, 9, 16), **SHAPES),
             LJ("VerifListener_Doc", tier, NODES=1, DEPTH=0, SIBLINGS=0, CONDS=1, FIXLAYOUT=1, PARAMS=2, PTYPES=1),
             LJ("VerifListener_Doc", tier, MODULES=1, MODNAMES=1, EXTEND=1, NODES=1, DEPTH=0, SIBLINGS=0, CONDS=1, FIXLAYOUT=1, PARAMS=1),
@@ -1066,9 +1068,9 @@ def c03(tier):
             LJ("VerifListener_Doc", tier, CONFORM=1, NODES=1, DEPTH=0, SIBLINGS=0, CONDS=1, PARAMS=2, PTYPES=1, FIXLAYOUT=1, N=1),
             LJ("VerifListener_Doc", tier, CONFORM=1, NODES=1, DEPTH=0, SIBLINGS=0, CONDS=1, PARAMS=1, EXPRS=1, FIXLAYOUT=1, N=1),
             LJ("VerifListener_Doc", tier, CONFORM=1, CHAIN=W(tier, 5, 8), N=1, **SHAPES)]
-    out = engine_a_check("C03", tier, jobs, {"VerifC03_PrePass": ["lemmas-checked"], "VerifListener_Doc": ["accepted"]},
+    out = engine_a_check("C03", tier, jobs, {"VerifC03_PrePass": ["lemmas-checked"], "VerifC16_PrePassRunes": ["lemmas-checked"], "VerifListener_Doc": ["accepted"]},
                          PARSER_STUB + ["the ANTLR runtime's conformance to its ATN is outside (residual): that the runtime accepts every document the ATN admits and builds the tree the grammar dictates"], "",
-                         bounds={"pre-pass": "all byte strings of length <= %d" % W(tier, 7, 9), "grammar facts": "no bound (regular-language inclusions on the ATN)"})
+                         bounds={"pre-pass": "all strings over 0x00..0x7f of length <= %d, all byte strings (every value 0..255) of length <= %d, comments with non-ASCII text from a menu" % (W(tier, 6, 8), W(tier, 4, 5)), "grammar facts": "no bound (regular-language inclusions on the ATN)"})
     grammar_facts(out, "C03")
     out.finish()
 
